@@ -19,8 +19,8 @@ def make_templates(root, PROPS='PROPS', CUTS='CUTS', LIB='LIB'):
         'ct__reel':    '{@root}/{prj}/{kind:CUTS}/{reel}',
         'ct':          '{@root}/{prj}/{kind:CUTS}',
 
-        'lib__file':   '{@root}/{prj}/{kind:LIB}/{item}.{fmt:images}',
-        'lib':         '{@root}/{prj}/{kind:LIB}',
+        'l_ib__file':   '{@root}/{prj}/{kind:LIB}/{item}.{fmt:images}',
+        'l_ib':       '{@root}/{prj}/{kind:LIB}',
 
         'prj':         '{@root}/{prj}',
     }
